@@ -50,7 +50,11 @@ def evaluate(case, ctx):
         tt = gtfcheck.transcript_table(models)
         ref = gtfcheck.ref_table(sc)
         annotated = bool(sc["genes"])
-        level_all = "--report_canonical" in sc["opts"] and sc["opts"][sc["opts"].index("--report_canonical") + 1] == "all"
+        rc_ = sc["opts"][sc["opts"].index("--report_canonical") + 1] if "--report_canonical" in sc["opts"] else None
+        ms_ = sc["opts"][sc["opts"].index("--model_construction_strategy") + 1] \
+            if "--model_construction_strategy" in sc["opts"] else None
+        # 'auto' resolves to the level of the model construction strategy; strategy 'all' reports all transcripts
+        level_all = rc_ == "all" or (rc_ == "auto" and ms_ == "all")
         # evidence: introns of corrected reads per chromosome
         read_introns = {}
         for r in parse.bed12(bed):
